@@ -48,7 +48,7 @@ OnFinal(r) ==
 
 \* several scenarios are concatenated in one trace: a Scenario record reports the previous one and resets
 Sid(mm) == IF "sid" \in DOMAIN mm.conf THEN mm.conf.sid ELSE -1
-ReportOne(mm) == mm.bad = {} \/ PrintT(<<"REJECT", l, Sid(mm), "NODE", mm.bad>>)
+ReportOne(mm) == IF mm.bad = {} THEN TRUE ELSE PrintT(<<"REJECT", l, Sid(mm), "NODE", mm.bad>>)
 
 Next ==
   /\ l <= Len(Trace)
